@@ -34,6 +34,7 @@ type result struct {
 	OpIndex int // index into Build+Ops(+Ops2) of the operation after which the check failed (-1: start state)
 
 	keyClass string // document layer: worst key class in the tree when it was written
+	start    string // start state of the tree the failing operation ran on
 }
 
 type treeState struct {
@@ -162,10 +163,10 @@ func (s *treeState) runOps(ops []op, universe []string, build bool, base int, pr
 		opClass, f := s.applyOp(o, universe, build)
 		if f != nil {
 			key := prefix + opClass + "/" + f.Class
-			if s.start == "foreign" || s.start == "reread" {
-				key += "/start=" + s.start // different input domain: tree shapes pdfcpu did not build itself in this session
+			if s.start == "foreign" {
+				key += "/start=foreign" // different input domain: tree shapes pdfcpu did not build itself
 			}
-			return &result{Key: key, What: fmt.Sprintf("after op %d %s(%q): %s", base+i, o.Kind, o.K, f.What), OpIndex: base + i}
+			return &result{start: s.start, Key: key, What: fmt.Sprintf("after op %d %s(%q): %s", base+i, o.Kind, o.K, f.What), OpIndex: base + i}
 		}
 	}
 	return nil
